@@ -89,6 +89,43 @@ func (e *lookupEventChannel) send(ctx context.Context, ev *LookupEvent)
   ensures [delivered-or-cancelled] imp(e.ch != nil, tagged("sent:e.ch") || tagged("recv:e.ctx.Done()") || tagged("recv:ctx.Done()"))
   ghost at send(e.ch): assert($msg == ev)
 
+# event constructors copy their arguments into the fields of the same name
+func NewPeerKadID(p peer.ID) *PeerKadID
+  props C01
+  modifies nothing
+  ensures result != nil && result.Peer == p
+
+func OptPeerKadID(p peer.ID) *PeerKadID
+  props C01
+  modifies nothing
+  ensures (result == nil) == (p == "") && imp(result != nil, result.Peer == p)
+
+func NewPeerKadIDSlice(p []peer.ID) []*PeerKadID
+  props C01
+  modifies nothing
+  ensures len(result) == len(p) && all(i, 0, len(p), result[i] != nil && result[i].Peer == p[i])
+  loop 0 invariant len(r) == len(p) && all(j, 0, $key, r[j] != nil && r[j].Peer == p[j])
+
+func NewLookupUpdateEvent(cause peer.ID, source peer.ID, heard []peer.ID, waiting []peer.ID, queried []peer.ID, unreachable []peer.ID) *LookupUpdateEvent
+  props C01
+  modifies nothing
+  ensures result != nil
+  ensures [cause-source] (result.Cause == nil) == (cause == "") && imp(cause != "", result.Cause.Peer == cause) && (result.Source == nil) == (source == "") && imp(source != "", result.Source.Peer == source)
+  ensures [heard] len(result.Heard) == len(heard) && all(i, 0, len(heard), result.Heard[i] != nil && result.Heard[i].Peer == heard[i])
+  ensures [waiting] len(result.Waiting) == len(waiting) && all(i, 0, len(waiting), result.Waiting[i] != nil && result.Waiting[i].Peer == waiting[i])
+  ensures [queried] len(result.Queried) == len(queried) && all(i, 0, len(queried), result.Queried[i] != nil && result.Queried[i].Peer == queried[i])
+  ensures [unreachable] len(result.Unreachable) == len(unreachable) && all(i, 0, len(unreachable), result.Unreachable[i] != nil && result.Unreachable[i].Peer == unreachable[i])
+
+func NewLookupTerminateEvent(reason LookupTerminationReason) *LookupTerminateEvent
+  props C01
+  modifies nothing
+  ensures result != nil && result.Reason == reason
+
+func NewLookupEvent(node peer.ID, id uuid.UUID, key string, request *LookupUpdateEvent, response *LookupUpdateEvent, terminate *LookupTerminateEvent) *LookupEvent
+  props C01
+  modifies nothing
+  ensures result != nil && result.Node != nil && result.Node.Peer == node && result.ID == id && result.Key != nil && result.Key.Key == key && result.Request == request && result.Response == response && result.Terminate == terminate
+
 # ---- the lookup event loop (C03, C01, C02) ------------------------------------
 # $out: the peers with a spawned worker whose update has not been consumed yet
 # (one token per spawn). TOK: every token holder is a member in state Waiting.
@@ -118,15 +155,35 @@ func (q *query) updateState(ctx context.Context, up *queryUpdate)
   loop over up.queried invariant QI(q) && TOK(q) && allT(x, peer.ID, q.$out[x] == (old(q.$out[x]) && (x != up.cause || $key == 0)))
   loop over up.unreachable invariant QI(q) && TOK(q) && allT(x, peer.ID, q.$out[x] == (old(q.$out[x]) && (x != up.cause || ($key == 0 && len(up.queried) == 0))))
   ghost at call(SetState): q.$out[$arg0] = false
+  # C01 events: the response event repeats the worker's report unchanged
+  ghostvar $ue *LookupUpdateEvent = nil
+  ghostvar $ev *LookupEvent = nil
+  ghostvar $pub bool = false
+  ensures [response-event-published] $pub
+  ghost at before call(NewLookupUpdateEvent): assert($arg0 == up.cause && $arg1 == up.cause && $arg2 == up.heard && len($arg3) == 0 && $arg4 == up.queried && $arg5 == up.unreachable)
+  ghost at call(NewLookupUpdateEvent): $ue = $ret0
+  ghost at before call(NewLookupEvent): assert($arg0 == q.dht.self && $arg1 == q.id && $arg2 == q.key && $arg3 == nil && $arg4 == $ue && $arg5 == nil)
+  ghost at call(NewLookupEvent): $ev = $ret0
+  ghost at before call(PublishLookupEvent): assert($arg1 == $ev && $ev != nil); $pub = true
 
 func (q *query) terminate(ctx context.Context, cancel context.CancelFunc, reason LookupTerminationReason)
-  props C03
+  props C03 C01
   requires QI(q) && TOK(q)
   ghostvar $cancelled bool = false
   modifies *
   ensures QI(q) && TOK(q) && q.terminated && q.$out == old(q.$out)
   ensures [internal-first-termination-cancels-the-path] imp(!old(q.terminated), $cancelled)
   ghost at call(cancel): $cancelled = true
+  # C01 events: the first termination publishes one terminate event with the reason
+  ghostvar $te *LookupTerminateEvent = nil
+  ghostvar $ev *LookupEvent = nil
+  ghostvar $pub bool = false
+  ensures [terminate-event-published-once] $pub == !old(q.terminated)
+  ghost at before call(NewLookupTerminateEvent): assert($arg0 == reason)
+  ghost at call(NewLookupTerminateEvent): $te = $ret0
+  ghost at before call(NewLookupEvent): assert($arg0 == q.dht.self && $arg1 == q.id && $arg2 == q.key && $arg3 == nil && $arg4 == nil && $arg5 == $te)
+  ghost at call(NewLookupEvent): $ev = $ret0
+  ghost at before call(PublishLookupEvent): assert($arg1 == $ev && $ev != nil && !$pub); $pub = true
 
 func (q *query) spawnQuery(ctx context.Context, cause peer.ID, queryPeer peer.ID, ch chan<- *queryUpdate)
   props C03 C01
@@ -137,6 +194,20 @@ func (q *query) spawnQuery(ctx context.Context, cause peer.ID, queryPeer peer.ID
   ensures [others-keep-their-state] allT(x, peer.ID, imp(x != queryPeer && old(q.queryPeers.$has[x]), q.queryPeers.$has[x] && qpeerset.stateOf(q.queryPeers, x) == old(qpeerset.stateOf(q.queryPeers, x))))
   ghost at call(SetState): q.$out[$arg0] = true
   ghost at go(queryPeer): assert(wgcount(q.waitGroup) == 1 && $arg1 == ch && $arg2 == queryPeer && ctxRoot($arg0) == old(ctxRoot(ctx)))
+  # C01 events: the request event says who is asked (queryPeer), why now
+  # (cause) and who named that peer (its recorded referrer)
+  ghostvar $ref peer.ID = any
+  ghostvar $ue *LookupUpdateEvent = nil
+  ghostvar $ev *LookupEvent = nil
+  ghostvar $pub bool = false
+  ensures [request-event-published] $pub
+  ghost at before call(GetReferrer): assert($recv == q.queryPeers && $arg0 == queryPeer)
+  ghost at call(GetReferrer): $ref = $ret0
+  ghost at before call(NewLookupUpdateEvent): assert($arg0 == cause && $arg1 == $ref && len($arg2) == 0 && len($arg3) == 1 && $arg3[0] == queryPeer && len($arg4) == 0 && len($arg5) == 0)
+  ghost at call(NewLookupUpdateEvent): $ue = $ret0
+  ghost at before call(NewLookupEvent): assert($arg0 == q.dht.self && $arg1 == q.id && $arg2 == q.key && $arg3 == $ue && $arg4 == nil && $arg5 == nil)
+  ghost at call(NewLookupEvent): $ev = $ret0
+  ghost at before call(PublishLookupEvent): assert($arg1 == $ev && $ev != nil); $pub = true
 
 # (the user's stop function only inspects the set: ASSUMED, as in runLookupWithFollowup)
 role stopFn(qp *qpeerset.QueryPeerset) bool in (q *query) isReadyToTerminate(nPeersToQuery int) (bool, LookupTerminationReason, []peer.ID)
@@ -687,8 +758,17 @@ func (q *query) queryPeer(ctx context.Context, ch chan<- *queryUpdate, p peer.ID
   ghost at before call(peerStoppedDHT)#0: assert($dialErr != nil && $dialCtxErr == nil && $arg0 == p)
   ghost at before call(peerStoppedDHT)#1: assert($qErr != nil && $qCtxErr == nil && $arg0 == p)
   ghost at before call(validPeerFound): assert($dialErr == nil && $qErr == nil && $arg0 == p)
-  ghost at call(queryPeerFilter): $filt = $ret0
-  ghost at before call(maybeAddAddrs): assert(isTarget || $filt); assert($arg0 == next.ID)
+  ghost at call(queryPeerFilter): $filt = $ret0; $due = $due + ite($ret0, 1, 0)
+  ghost at before call(maybeAddAddrs): assert(isTarget || $filt); assert($arg0 == next.ID && $arg1 == addrs)
+  # C01: a named peer is judged on the addresses of the response MERGED with
+  # the addresses already known locally, and every peer that is the target or
+  # passes the filter is reported as heard ($due counts them)
+  ghostvar $due int = 0
+  loop over newPeers invariant len(saw) == $due
+  ghost at assign(isTarget): $due = $due + ite(isTarget, 1, 0)
+  ghost at before call(PeerInfo): assert($arg0 == next.ID)
+  ghost at before call(Concat): assert(len($arg0) == 2 && $arg0[0] == next.Addrs && $arg0[1] == curInfo.Addrs)
+  ghost at before call(queryPeerFilter): assert($arg0 == q.dht && $arg1.ID == next.ID && $arg1.Addrs == addrs)
   ghost at append(saw): assert(isTarget || $filt); assert(next.ID != q.dht.self)
   ghost at before call(dialPeer): assert(ctxRoot($arg0) == old(ctxRoot(ctx)))
   ghost at before call(queryFn): assert(ctxRoot($arg0) == ctxRoot(q.ctx))
